@@ -15,15 +15,13 @@ CONSTANTS
   MaxData = 1
   CallKinds = {"poll_capacity", "poll_reset", "poll_ready"}
   AppKinds = {"request", "request_keep", "send_data", "send_reset", "drop_send", "drop_recv"}
-  PeerKinds = {"SET_MAXC", "HEADERS", "RST", "EOF"}
+  PeerKinds = {"SET_MAXC", "HEADERS", "RST"}
   IwsVals = {}
   MaxcVals = {2}
   ReqEos = {FALSE, TRUE}
-  Allow = {"shared_slot", "reset_after_end", "push_after_recv_drop"}
+  Allow = {"shared_slot"}
   ExportLen = 0
-\* keep ONE of the following at a time (TLC stops at the first violated invariant):
-\*   InvC08  (S)  F-T1: the poll_ready waiter's waker is overwritten by the pending stream's own SendStream (shared send_task)
-\*   InvC06  (S)  F-T1: ... and the wake-up is then lost: poll_ready stays parked although the stream was opened
-\*   InvC07  (S)  F-T2: poll_reset on a stream that ended cleanly is still parked after the connection ended
+\* F-T1 (S): SendRequest::poll_ready waits in the send_task slot of its pending stream, the slot the stream's own SendStream
+\* uses for poll_capacity / poll_reset: the later caller overwrites the earlier one's waker (InvC08, 4 steps) and the earlier one is never woken (InvC06)
 INVARIANT InvC06
 CHECK_DEADLOCK FALSE
